@@ -94,9 +94,9 @@ Definition read_from_field (m : mode) (r : rst) (sc : scope) (is_opt : bool) : r
                 let r := r_set_src r s in
                 let! read_n := uadd m n 1 in
                 let start := s_pos (r_src r) in
-                let! stop := uadd m start n_ext in
-                let! skip := uadd m start read_n in
-                let r := r_set_src r (src_set_pos (r_src r) skip) in
+                (* saturating_add; the range covers the transmitted presence bits *)
+                let stop := N.min (start + read_n) (two64 - 1) in
+                let r := r_set_src r (src_set_pos (r_src r) stop) in
                 let sc' := AllBitField start stop in
                 read_from_field_simple (r_set_scope r (Some sc')) sc' is_opt
             end
@@ -135,6 +135,41 @@ Definition read_bit_field_entry_st (m : mode) (r : rst) (is_opt : bool) : res (f
 Definition read_bit_field_entry (m : mode) (r : rst) (is_opt : bool) : res (option bool * rst) :=
   let! (x, r') := read_bit_field_entry_st m r is_opt in
   match x with inl ob => Ok (ob, r') | inr e => Err e end.
+
+(* skip_unknown_extension_additions: every present addition beyond the locally known ones is
+   skipped by its open-type length *)
+Fixpoint skip_unknown_loop (fuel : nat) (m : mode) (r : rst) (p stop : N) : res rst :=
+  match fuel with
+  | O => Ok r
+  | S f =>
+      if stop <=? p then Ok r else
+      let! bit := r_bit_at (r_src r) p in
+      if bit then
+        let! (len, r) := r_get r (r_length_determinant m None None) in
+        let! lb := umul m len BYTE_LEN in
+        let! e := uadd m (s_pos (r_src r)) lb in
+        let s' := src_set_pos (r_src r) e in
+        if s_pos s' =? e then skip_unknown_loop f m (r_set_src r s') (p + 1) stop
+        else Err E_END_OF_STREAM
+      else skip_unknown_loop f m r (p + 1) stop
+  end.
+
+Definition skip_unknown_extension_additions (m : mode) (r : rst) : res rst :=
+  match r_scope r with
+  | Some (AllBitField a b) =>
+      (* a position at or beyond the declared length fails with EndOfStream at once, so the walk is bounded by it *)
+      let fuel := S (N.to_nat (N.min (b - a) (s_len (r_src r) + 1 - N.min a (s_len (r_src r) + 1)))) in
+      skip_unknown_loop fuel m (r_set_scope r (Some (AllBitField b b))) a b
+  | Some (ExtSeq _ _ 0 _) =>
+      let! (n, r) := r_get r (r_normally_small m) in
+      let count := N.min (n + 1) (two64 - 1) in
+      let start := s_pos (r_src r) in
+      let stop := N.min (start + count) (two64 - 1) in
+      let r := r_set_src r (src_set_pos (r_src r) stop) in
+      let fuel := S (N.to_nat (N.min (stop - start) (s_len (r_src r) + 1 - N.min start (s_len (r_src r) + 1)))) in
+      skip_unknown_loop fuel m (r_set_scope r (Some (AllBitField stop stop))) start stop
+  | _ => Ok r
+  end.
 
 Definition rscope_pushed {A} (m : mode) (r : rst) (sc : scope) (f : rst -> res (A * rst)) : res (A * rst) :=
   let original := r_scope r in
@@ -282,7 +317,9 @@ Fixpoint read_ty (m : mode) (t : ty) (r : rst) {struct t} : res (val * rst) :=
         match ext_after, ext with
         | Some ea, true =>
             let! nx := usub m field_count (ea + 1) in
-            rscope_pushed m r (ExtSeq bit_pos (Some (start, stop)) (ea + 1) nx) walk
+            rscope_pushed m r (ExtSeq bit_pos (Some (start, stop)) (ea + 1) nx)
+              (fun r => let! (v, r) := walk r in
+                        let! r := skip_unknown_extension_additions m r in Ok (v, r))
         | _, _ => rscope_pushed m r (OptBitField start stop) walk
         end)
   | TChoice alts std ext =>
